@@ -830,11 +830,16 @@ def c17(ctx):
                           "is_dir given to Gitignore::matched derives from %s" % sorted(x.split("::")[-1] for x in c),
                           None if ok else dict(origins=sorted(c))))
             c1, a1, f1 = q.arg_origin_calls(f, t, 1)
-            okp = "walkdir::dent::DirEntry::path" in c1
+            # the path as walked (root-prefixed exactly as the matcher's root was given): a path re-based by the
+            # caller (strip_prefix, file_name, canonicalize) is stripped of the root a second time by the matcher
+            okp = c1 == {"walkdir::dent::DirEntry::path"}
             obs.append(Ob("R-TABLE", mkkey("R-TABLE", f.path, MATCHED, 0, "path<-entry"), okp, q.loc_of(t), f.path,
-                          "path given to matched is the walked entry's path: %s" % okp))
+                          "path given to matched is the walked entry's path, unchanged: %s (derives from %s)" % (
+                              okp, sorted(x.split("::")[-1] for x in c1)), None if okp else dict(origins=sorted(c1))))
     if m == 0:
         obs.append(anchor_ob("R-PROBE", "no Gitignore::matched call"))
+    import p_ignore
+    obs += p_ignore.root_never_matched(fx)
     ctx.add(obs)
 
 
